@@ -248,3 +248,263 @@ Lemma setup_env_safe : forall c script stack succ ed t,
   ((c_sigver c =? SV_BASE) || (c_sigver c =? SV_WITNESS_V0) || (c_sigver c =? SV_TAPROOT) = false -> ed_weight_init ed = true) ->
   safe c (i_e (setup_env c script stack succ ed t)).
 Proof. intros c script stack succ ed t H. split; [cbn; discriminate|exact H]. Qed.
+
+(* ------------------------------------------------------------------ the safe environment is preserved by every step *)
+(* [sp e e']: e' keeps a live pbegincodehash if e had one, and the same weight-initialised bit *)
+Definition sp (e e' : see) : Prop :=
+  (e_cb e <> None -> e_cb e' <> None) /\ ed_weight_init (e_ed e') = ed_weight_init (e_ed e).
+Lemma sp_refl e : sp e e. Proof. split; [auto|reflexivity]. Qed.
+Lemma sp_trans a b c : sp a b -> sp b c -> sp a c. Proof. intros [H1 H2] [H3 H4]. split; [auto|congruence]. Qed.
+Lemma sp_set_stack e s : sp e (set_stack e s). Proof. split; [auto|reflexivity]. Qed.
+Lemma sp_set_alt e s : sp e (set_alt e s). Proof. split; [auto|reflexivity]. Qed.
+Lemma sp_set_cond e s : sp e (set_cond e s). Proof. split; [auto|reflexivity]. Qed.
+Lemma sp_set_ops e s : sp e (set_ops e s). Proof. split; [auto|reflexivity]. Qed.
+Lemma sp_set_err e s : sp e (set_err e s). Proof. split; [auto|reflexivity]. Qed.
+Lemma sp_pushs e v : sp e (pushs e v). Proof. split; [auto|reflexivity]. Qed.
+Lemma sp_popn e n : sp e (popn e n). Proof. split; [auto|reflexivity]. Qed.
+Lemma sp_set_cb_some e p : sp e (set_cb e (Some p)). Proof. split; [intros _; cbn; discriminate|reflexivity]. Qed.
+Lemma sp_set_ed e d : ed_weight_init d = ed_weight_init (e_ed e) -> sp e (set_ed e d). Proof. intros H. split; [auto|exact H]. Qed.
+Lemma sp_safe c e e' : sp e e' -> safe c e -> safe c e'.
+Proof. intros [H1 H2] [Ha Hb]. split; [auto|]. intros Hc. rewrite H2. auto. Qed.
+
+Ltac sp_step :=
+  match goal with
+  | |- sp ?e ?e => apply sp_refl
+  | H : sp ?a ?b |- sp ?a ?b => exact H
+  | |- sp ?e (set_stack ?x _) => apply (sp_trans e x); [|apply sp_set_stack]
+  | |- sp ?e (set_alt ?x _) => apply (sp_trans e x); [|apply sp_set_alt]
+  | |- sp ?e (set_cond ?x _) => apply (sp_trans e x); [|apply sp_set_cond]
+  | |- sp ?e (set_ops ?x _) => apply (sp_trans e x); [|apply sp_set_ops]
+  | |- sp ?e (set_err ?x _) => apply (sp_trans e x); [|apply sp_set_err]
+  | |- sp ?e (pushs ?x _) => apply (sp_trans e x); [|apply sp_pushs]
+  | |- sp ?e (popn ?x _) => apply (sp_trans e x); [|apply sp_popn]
+  | |- sp ?e (set_cb ?x (Some _)) => apply (sp_trans e x); [|apply sp_set_cb_some]
+  | |- sp _ (set_ed (match ?x with Some _ => _ | None => _ end) _) => destruct x
+  | |- sp ?e (set_ed ?x _) => apply (sp_trans e x); [|apply sp_set_ed; reflexivity]
+  | |- sp _ (if ?b then _ else _) => destruct b
+  | |- sp _ (match ?x with Some _ => _ | None => _ end) => destruct x
+  end.
+Ltac sp_solve := repeat sp_step.
+
+(* a result "keeps safety" whatever its status *)
+Definition spr (e : see) (r : see * status) : Prop := sp e (fst r).
+Lemma spr_ok e e' : sp e e' -> spr e (ok e'). Proof. auto. Qed.
+Lemma spr_fail e e' err : sp e e' -> spr e (fail e' err). Proof. intros H. unfold spr, fail. cbn [fst]. sp_solve. Qed.
+Lemma spr_same e st : spr e (e, st). Proof. apply sp_refl. Qed.
+
+Ltac spr_leaf :=
+  match goal with
+  | |- spr _ (ok _) => apply spr_ok; sp_solve
+  | |- spr _ (fail _ _) => apply spr_fail; sp_solve
+  | |- spr _ (_, _) => unfold spr; cbn [fst]; sp_solve
+  end.
+
+Section SafePres.
+Variable low_s : bytes -> bool.
+Variable c : cfg.
+
+Lemma spr_with_num v n e k : (forall z, spr e (k z)) -> spr e (with_num c v n e k).
+Proof. intros H. unfold with_num. destruct (sn_ctor v (req_minimal c) n); [apply H|apply spr_same|apply spr_same]. Qed.
+Lemma spr_need e n err k : spr e k -> spr e (need e n err k).
+Proof. intros H. unfold need. destruct (ssize e <? n); [spr_leaf|exact H]. Qed.
+
+Lemma spr_step_extended e opcode : spr e (step_extended c e opcode).
+Proof.
+  unfold step_extended.
+  repeat match goal with
+         | |- spr _ (if ?b then _ else _) => destruct b
+         | |- spr _ (with_num _ _ _ _ _) => apply spr_with_num; intros
+         end; spr_leaf.
+Qed.
+
+Ltac spr_auto :=
+  cbv zeta;
+  repeat match goal with
+         | |- context [if ?b then _ else _] => destruct b
+         | |- context [let '(_, _) := ?x in _] => destruct x
+         | |- context [match ?x with Some _ => _ | None => _ end] => destruct x
+         end; cbn [fst snd]; spr_leaf.
+
+Lemma sp_eval_checksig_pre e sig key : sp e (fst (fst (eval_checksig_pre low_s c e sig key))).
+Proof. unfold eval_checksig_pre, script_code.
+  repeat match goal with
+         | |- context [if ?b then _ else _] => destruct b
+         | |- context [let '(_, _) := ?x in _] => destruct x
+         | |- context [match ?x with Some _ => _ | None => _ end] => destruct x
+         end; cbn [fst snd]; sp_solve.
+Qed.
+Lemma sp_eval_checksig_tapscript e sig key : sp e (fst (fst (eval_checksig_tapscript c e sig key))).
+Proof. unfold eval_checksig_tapscript.
+  repeat match goal with
+         | |- context [if ?b then _ else _] => destruct b
+         | |- context [let '(_, _) := ?x in _] => destruct x
+         end; cbn [fst snd]; sp_solve.
+Qed.
+Lemma sp_eval_checksig e sig key : sp e (fst (fst (eval_checksig low_s c e sig key))).
+Proof.
+  unfold eval_checksig. destruct (pv_has_key c key && pv_match c sig key); [cbn; apply sp_refl|].
+  destruct (c_sigver c =? SV_TAPROOT).
+  - destruct (k_schnorr (c_chk c) sig key SV_TAPROOT (e_ed e)) as [okv err]. cbn. apply sp_refl.
+  - destruct ((c_sigver c =? SV_BASE) || (c_sigver c =? SV_WITNESS_V0)); [apply sp_eval_checksig_pre|apply sp_eval_checksig_tapscript].
+Qed.
+
+Lemma spr_op_checksig e opcode : spr e (op_checksig low_s c e opcode).
+Proof.
+  unfold op_checksig. destruct (ssize e <? 2); [spr_leaf|].
+  pose proof (sp_eval_checksig e (stop e 2) (stop e 1)) as H.
+  destruct (eval_checksig low_s c e (stop e 2) (stop e 1)) as [[e1 st] fS]. cbn [fst] in H.
+  destruct st; try exact H.
+  destruct (opcode =? OP_CHECKSIGVERIFY); [destruct fS|]; first [exact H | spr_leaf].
+Qed.
+Lemma spr_op_checksigadd e : spr e (op_checksigadd low_s c e).
+Proof.
+  unfold op_checksigadd. destruct ((c_sigver c =? SV_BASE) || (c_sigver c =? SV_WITNESS_V0)); [spr_leaf|].
+  destruct (ssize e <? 3); [spr_leaf|].
+  destruct (num_at c e 2 4); try apply spr_same.
+  pose proof (sp_eval_checksig e (stop e 3) (stop e 1)) as H.
+  destruct (eval_checksig low_s c e (stop e 3) (stop e 1)) as [[e1 st] fS]. cbn [fst] in H.
+  destruct st; first [exact H | spr_leaf].
+Qed.
+
+Lemma sp_multisig_loop fuel e code isig ikey nS nK : sp e (fst (fst (multisig_loop low_s fuel c e code isig ikey nS nK))).
+Proof.
+  revert isig ikey nS nK. induction fuel as [|f IH]; intros isig ikey nS nK; cbn [multisig_loop]; [cbn; apply sp_refl|].
+  destruct (0 <? nS); [|cbn; apply sp_refl].
+  assert (Hstep: forall fOk : bool,
+    sp e (fst (fst (let isig' := if fOk then isig + 1 else isig in
+              let nSigs' := if fOk then nS - 1 else nS in
+              let ikey' := ikey + 1 in let nKeys' := nK - 1 in
+              if nKeys' <? nSigs' then (e, SOk, false) else multisig_loop low_s f c e code isig' ikey' nSigs' nKeys')))).
+  { intros fOk. cbv zeta. destruct (nK - 1 <? (if fOk then nS - 1 else nS)); [cbn; apply sp_refl|apply IH]. }
+  destruct (pv_has_key c (stop e (Z.to_nat ikey))); [apply Hstep|].
+  destruct (check_sig_encoding low_s (c_flags c) (stop e (Z.to_nat isig))); [cbn; sp_solve|].
+  destruct (check_pubkey_encoding (c_flags c) (c_sigver c) (stop e (Z.to_nat ikey))); [cbn; sp_solve|].
+  apply Hstep.
+Qed.
+Lemma spr_multisig_cleanup n e fS ikey2 : spr e (multisig_cleanup n c e fS ikey2).
+Proof.
+  revert e ikey2. induction n as [|m IH]; intros e ikey2; cbn [multisig_cleanup]; [spr_leaf|].
+  match goal with |- spr _ (if ?b then _ else _) => destruct b end; [spr_leaf|].
+  unfold spr. apply (sp_trans e (popn e 1)); [apply sp_popn|apply IH].
+Qed.
+Lemma spr_op_checkmultisig e opcode : spr e (op_checkmultisig low_s c e opcode).
+Proof.
+  unfold op_checkmultisig.
+  destruct (c_sigver c =? SV_TAPSCRIPT); [spr_leaf|].
+  destruct (ssize e <? 1); [spr_leaf|].
+  destruct (num_at c e 1 4) as [kraw|x|x]; try apply spr_same.
+  match goal with |- spr _ (if ?b then _ else _) => destruct b end; [spr_leaf|].
+  set (e0 := set_ops e (e_ops e + sn_getint kraw)).
+  assert (H0: sp e e0) by apply sp_set_ops.
+  match goal with |- spr _ (if ?b then _ else _) => destruct b end; [spr_leaf|].
+  match goal with |- spr _ (if ?b then _ else _) => destruct b end; [spr_leaf|].
+  destruct (num_at c e0 (Z.to_nat (2 + sn_getint kraw)) 4) as [sraw|x|x]; try (unfold spr; cbn [fst]; exact H0).
+  match goal with |- spr _ (if ?b then _ else _) => destruct b end; [spr_leaf|].
+  match goal with |- spr _ (if ?b then _ else _) => destruct b end; [spr_leaf|].
+  unfold script_code. destruct (e_cb e0); [|unfold spr; cbn [fst]; exact H0].
+  match goal with |- context [multisig_fad ?a ?k0 ?b0 ?s] => destruct (multisig_fad a k0 b0 s) as [code fadfail] end.
+  destruct fadfail; [spr_leaf|].
+  match goal with |- context [multisig_loop ?ls ?fu ?cc ?ee ?co ?a1 ?a2 ?a3 ?a4] =>
+    pose proof (sp_multisig_loop fu ee co a1 a2 a3 a4) as HL;
+    destruct (multisig_loop ls fu cc ee co a1 a2 a3 a4) as [[e1 st] fS] end.
+  cbn [fst] in HL.
+  assert (H1: sp e e1) by (apply (sp_trans e e0); assumption).
+  destruct st; try (unfold spr; cbn [fst]; exact H1).
+  match goal with |- context [multisig_cleanup ?n ?cc ?ee ?f ?k] =>
+    pose proof (spr_multisig_cleanup n ee f k) as HC; destruct (multisig_cleanup n cc ee f k) as [e2 st2] end.
+  unfold spr in HC. cbn [fst] in HC.
+  assert (H2: sp e e2) by (apply (sp_trans e e1); assumption).
+  destruct st2; try (unfold spr; cbn [fst]; exact H2).
+  destruct (ssize e2 <? 1); [spr_leaf|].
+  match goal with |- spr _ (if ?b then _ else _) => destruct b end; [spr_leaf|].
+  destruct (opcode =? OP_CHECKMULTISIGVERIFY); [destruct fS|]; spr_leaf.
+Qed.
+
+Lemma spr_exec_opcode e opcode fExec pc' : spr e (exec_opcode low_s c e opcode fExec pc').
+Proof.
+  unfold exec_opcode.
+  repeat match goal with
+         | |- spr _ (if ?b then _ else _) => destruct b
+         | |- spr _ (need _ _ _ _) => apply spr_need
+         | |- spr _ (with_num _ _ _ _ _) => apply spr_with_num; intros
+         | |- spr _ (step_extended _ _ _) => apply spr_step_extended
+         | |- spr _ (op_checksig _ _ _ _) => apply spr_op_checksig
+         | |- spr _ (op_checksigadd _ _ _) => apply spr_op_checksigadd
+         | |- spr _ (op_checkmultisig _ _ _ _) => apply spr_op_checkmultisig
+         | |- spr _ (match num_at ?a ?b ?k ?m with _ => _ end) => destruct (num_at a b k m)
+         | |- spr _ (match unary_num ?a ?b with _ => _ end) => destruct (unary_num a b)
+         | |- spr _ (match binary_num ?a ?b ?k with _ => _ end) => destruct (binary_num a b k)
+         | |- spr _ (match e_alt ?a with _ => _ end) => destruct (e_alt a)
+         | |- spr _ (let _ := _ in _) => cbv zeta
+         end; try spr_leaf.
+Qed.
+
+Theorem step_script_keeps_safe e pc local : safe c e -> safe c (fst (fst (step_script low_s c e pc local))).
+Proof.
+  intros Hs. apply (sp_safe c e); [|exact Hs]. unfold step_script.
+  destruct (get_op pc) as [[[opcode push]|] pc']; cbn [fst]; [|sp_solve].
+  match goal with |- context [if ?b then _ else _] => destruct b end; cbn [fst]; [sp_solve|].
+  set (count := ((c_sigver c =? SV_BASE) || (c_sigver c =? SV_WITNESS_V0)) && cmp_eval (fst site_opcount_threshold) opcode (snd site_opcount_threshold)).
+  set (e0 := if count then set_ops e (e_ops e + 1) else e).
+  assert (H0: sp e e0) by (subst e0; destruct count; [apply sp_set_ops|apply sp_refl]).
+  match goal with |- context [if ?b then _ else _] => destruct b end; cbn [fst]; [sp_solve|].
+  match goal with |- context [if ?b then _ else _] => destruct b end; cbn [fst]; [sp_solve|].
+  match goal with |- context [if ?b then _ else _] => destruct b end; cbn [fst]; [sp_solve|].
+  match goal with |- context [let '(_, _) := ?q in _] => assert (HX: spr e0 q); [|destruct q as [e1 st]] end.
+  { repeat match goal with |- spr _ (if ?b then _ else _) => destruct b end; try spr_leaf. apply spr_exec_opcode. }
+  unfold spr in HX. cbn [fst] in HX.
+  assert (H1: sp e e1) by (apply (sp_trans e e0); assumption).
+  destruct st; cbn [fst]; try exact H1.
+  match goal with |- context [if ?b then _ else _] => destruct b end; cbn [fst]; sp_solve.
+Qed.
+End SafePres.
+
+(* ------------------------------------------------------------------ the debugger's step (with the scriptPubKey / P2SH / taproot phases) *)
+Section SessionSafety.
+Variable low_s : bytes -> bool.
+Variable tap_tweak_ok : bytes -> bytes -> bytes -> bool -> bool.
+Variable sha256 : bytes -> bytes.
+Variable c : cfg.
+Notation dbg_step := (Session.dbg_step low_s tap_tweak_ok sha256).
+
+Theorem dbg_step_no_crash : forall v, safe c (i_e v) -> forall x, snd (dbg_step c v) <> SCrash x.
+Proof.
+  intros v Hs x. unfold Session.dbg_step.
+  destruct (i_tce v) as [t|].
+  - destruct (tce_iterate tap_tweak_ok sha256 t) as [t' st]. destruct st; cbn; discriminate.
+  - destruct (i_pc v) as [|b r] eqn:Epc.
+    + repeat match goal with
+             | |- context [if ?q then _ else _] => destruct q
+             | |- context [match ?q with [] => _ | _ :: _ => _ end] => destruct q
+             end; cbn; discriminate.
+    + pose proof (step_script_no_crash low_s c (i_e v) (b :: r) false Hs x) as H.
+      destruct (step_script low_s c (i_e v) (b :: r) false) as [[e1 pc1] st]. cbn [snd] in H.
+      destruct st; cbn; try discriminate. exact H.
+Qed.
+
+Theorem dbg_step_keeps_safe : forall v, safe c (i_e v) -> safe c (i_e (fst (dbg_step c v))).
+Proof.
+  intros v Hs. unfold Session.dbg_step.
+  destruct (i_tce v) as [t|].
+  - destruct (tce_iterate tap_tweak_ok sha256 t) as [t' st]. destruct st; cbn [fst]; exact Hs.
+  - destruct (i_pc v) as [|b r] eqn:Epc.
+    + destruct Hs as [Ha Hb].
+      repeat match goal with
+             | |- context [if ?q then _ else _] => destruct q
+             | |- context [match ?q with [] => _ | _ :: _ => _ end] => destruct q
+             end; cbn [fst]; (split; [cbn; first [exact Ha | discriminate]|exact Hb]).
+    + pose proof (step_script_keeps_safe low_s c (i_e v) (b :: r) false Hs) as H.
+      destruct (step_script low_s c (i_e v) (b :: r) false) as [[e1 pc1] st]. cbn [fst] in H.
+      destruct st; cbn [fst]; (destruct H as [Ha Hb]; split; [exact Ha|exact Hb]).
+Qed.
+
+(* any number of debugger steps, whatever they return, from a safe start: never a crash outcome *)
+Fixpoint steps (n : nat) (v : ienv) : ienv :=
+  match n with O => v | S m => steps m (fst (dbg_step c v)) end.
+
+Theorem session_never_crashes : forall n v, safe c (i_e v) -> forall x, snd (dbg_step c (steps n v)) <> SCrash x.
+Proof.
+  induction n as [|n IH]; intros v Hs x; cbn [steps]; [apply dbg_step_no_crash; exact Hs|].
+  apply IH. apply dbg_step_keeps_safe. exact Hs.
+Qed.
+End SessionSafety.
